@@ -351,7 +351,8 @@ def run_pipelines_with_dask(
             "dimension_names": dim_names,
             "output_dimensions": output_dimensions,
             "processor": processor,
-            "outputs": outputs,
+            # Own copy: folder and 'save_data_to_file' as they are now, not when computed
+            "outputs": deepcopy(outputs),
             "readout": readout,
             "pipeline_seed": pipeline_seed,
         },
